@@ -39,6 +39,9 @@ type pseudoCase struct {
 	refuse string
 	// the mapping's required signer as an ordinary case (nil: no mapping needed)
 	mapping *evCase
+	// the sender key and room, so that a later event can come from the same key
+	uk   ed25519.PrivateKey
+	room string
 }
 
 func bodyC06Pseudo(r *sim.Run) {
@@ -69,7 +72,13 @@ func bodyC06Pseudo(r *sim.Run) {
 	r.Probe("pseudo_id_room")
 	var cases []*pseudoCase
 	for i, n := 0, t.Range(1, 3); i < n; i++ {
-		cases = append(cases, w.buildPseudo(impl, A, B, D))
+		// a second join by a key that has joined before: its mapping is judged afresh
+		var again *pseudoCase
+		if i > 0 && t.Chance(400) {
+			again = cases[i-1]
+			r.Probe("pseudo_second_event_by_the_same_key")
+		}
+		cases = append(cases, w.buildPseudo(impl, A, B, D, again))
 	}
 	if t.Chance(500) {
 		d := time.Duration(sim.Pick(t, []int{1, 3600, 86400, 3 * 86400, 7 * 86400, 8 * 86400, 40 * 86400})) * time.Second
@@ -172,17 +181,20 @@ func (w *kworld) keyPlan(obj []byte, who string, id string, priv ed25519.Private
 	return obj, bad
 }
 
-func (w *kworld) buildPseudo(impl gmsl.IRoomVersion, A, B, D *world.Server) *pseudoCase {
+func (w *kworld) buildPseudo(impl gmsl.IRoomVersion, A, B, D *world.Server, again *pseudoCase) *pseudoCase {
 	r, t := w.r, w.r.T
 	c := &pseudoCase{}
 	uk := ed25519.NewKeyFromSeed(t.Bytes(32))
+	if again != nil {
+		uk = again.uk
+	}
 	ik := ed25519.NewKeyFromSeed(t.Bytes(32))
 	ok := ed25519.NewKeyFromSeed(t.Bytes(32)) // somebody else's key
 	sender := string(spec.SenderIDFromPseudoIDKey(uk))
 	invitee := string(spec.SenderIDFromPseudoIDKey(ik))
 	// a sender ID that is not a 32-byte key can have signed nothing
 	malformed := ""
-	if t.Chance(120) {
+	if again == nil && t.Chance(120) {
 		pub := uk.Public().(ed25519.PublicKey)
 		malformed = sim.Pick(t, []string{"abcd", "@u:" + string(A.Name), spec.Base64Bytes(pub[:31]).Encode(), spec.Base64Bytes(append(append([]byte{}, pub...), 7)).Encode(), "AA", string(A.Name)})
 		sender = malformed
@@ -191,8 +203,15 @@ func (w *kworld) buildPseudo(impl gmsl.IRoomVersion, A, B, D *world.Server) *pse
 	}
 	p := world.Proto{RoomID: world.FakeRoomID(t, impl, A.Name), Sender: sender, Depth: int64(t.Range(1, 50)),
 		Prev: []string{world.FakeEventID(t, impl, A.Name)}, Auth: []string{world.FakeEventID(t, impl, A.Name)}}
+	if again != nil {
+		p.RoomID = again.room
+	}
+	c.uk, c.room = uk, p.RoomID
 	needInvitee, join := false, false
 	kind := t.Weighted([]int{2, 1, 4, 3, 1, 1})
+	if again != nil {
+		kind = 2
+	}
 	switch kind {
 	case 0:
 		p.Type, p.Content = "m.room.message", map[string]any{"body": "hi", "msgtype": "m.text"}
